@@ -128,9 +128,9 @@ theorem evalNodes_opN {S : Sem V} {fuel : Nat} {ρ : Env V} {dom name : String} 
   simp [evalNodes, evalNode, hins, hop, hl]
 
 theorem tuple_run (S : Sem V) (fuel : Nat) {xs : List Name} {dom op : String} {sig : Sig} {args : List Expr}
-    {attrs : List (String × AttrV)} {ρ : Store V} {o : Outcome V} (hρ : AllT ρ)
+    {attrs : List (String × AttrV)} {ρ : Store V} {o : Outcome V} (hρ : AllT S ρ)
     (h : evalStmt S fuel (.tuple xs (.call dom op sig args attrs)) ρ = some o) :
-    ∃ ρ', o = .normal ρ' ∧ RunOK ρ ρ' (assignedStmt (.tuple xs (.call dom op sig args attrs))) := by
+    ∃ ρ', o = .normal ρ' ∧ RunOK S ρ ρ' (assignedStmt (.tuple xs (.call dom op sig args attrs))) := by
   unfold evalStmt at h
   cases ha : evalExprs S ρ args with
   | none => simp [ha] at h
@@ -174,6 +174,7 @@ theorem tuple_cast {L : Locals} {xs : List Name} {dom op : String} {sig : Sig} {
 theorem tuple_step (S : Sem V) (fuel : Nat) (hConst : ∀ l, ∃ c, constOf S l = some c) {xs : List Name}
     {dom op : String} {sig : Sig} {args : List Expr} {attrs : List (String × AttrV)} {lo : VSet}
     {ρ ρ' : Store V} {L L' : Locals} {env : Env V} {s s' : St} {ns : List Node} (hnd : xs.Nodup)
+    (hxs : ∀ x, x ∈ xs → S.attrLit x = none)
     (hinv : Inv S (liveInStmt (.tuple xs (.call dom op sig args attrs)) lo) ρ L env s)
     (he : evalStmt S fuel (.tuple xs (.call dom op sig args attrs)) ρ = some (.normal ρ'))
     (h : convStmt L (.tuple xs (.call dom op sig args attrs)) lo s = .ok ((L', ns), s')) :
@@ -242,7 +243,7 @@ theorem tuple_step (S : Sem V) (fuel : Nat) (hConst : ∀ l, ∃ c, constOf S l 
           ⟨fun n hn => by rw [envSetMany_frame outs rs env3 n (hnotin n hn)]; exact x13.envSame n hn, hcast.ext⟩
         have hall := setMany_all2 ρ xs rs hnd hl
         refine ⟨_, evalNodes_seq ev1 (evalNodes_seq ev3 evN), ?_, xfin, hfr.1⟩
-        refine ⟨hsc.2.mono (fun y hy => after_in_used hfr hy), hinv.noattr.bindVals _ _,
+        refine ⟨hsc.2.mono (fun y hy => after_in_used hfr hy), hinv.noattr.bindVals _ _ hxs,
           hcast.sub hinv.cast, run.allT, ?_, ?_⟩
         · intro y q hy
           obtain ⟨hm, hq⟩ := restrict_some.mp hy
@@ -271,11 +272,11 @@ theorem tuple_step (S : Sem V) (fuel : Nat) (hConst : ∀ l, ∃ c, constOf S l 
 
 theorem iterFor_runG (S : Sem V) (fuel : Nat) (i : Name) {body : List Stmt} {d : VSet}
     (hd : assignedBlock body = some d)
-    (hrun : ∀ {ρ : Store V} {o : Outcome V}, AllT ρ → evalBlock S fuel body ρ = some o →
-      ∃ ρ1, o = .normal ρ1 ∧ RunOK ρ ρ1 (assignedBlock body)) :
-    ∀ (left k : Nat) {ρ : Store V} {o : Outcome V}, AllT ρ →
+    (hrun : ∀ {ρ : Store V} {o : Outcome V}, AllT S ρ → evalBlock S fuel body ρ = some o →
+      ∃ ρ1, o = .normal ρ1 ∧ RunOK S ρ ρ1 (assignedBlock body)) :
+    ∀ (left k : Nat) {ρ : Store V} {o : Outcome V}, AllT S ρ →
       iterFor S i (fun r => evalBlock S fuel body r) left k ρ = some o →
-      ∃ ρ', o = .normal ρ' ∧ AllT ρ' ∧ (∀ x, ρ x ≠ none → ρ' x ≠ none)
+      ∃ ρ', o = .normal ρ' ∧ AllT S ρ' ∧ (∀ x, ρ x ≠ none → ρ' x ≠ none)
         ∧ (∀ x, x ∉ d → x ≠ i → ρ' x = ρ x) := by
   intro left
   induction left with
@@ -308,11 +309,11 @@ theorem iterFor_runG (S : Sem V) (fuel : Nat) (i : Name) {body : List Stmt} {d :
 
 theorem iterWhile_runG (S : Sem V) (fuel : Nat) {body : List Stmt} {d : VSet} {cond : Store V → Option Bool}
     (hd : assignedBlock body = some d)
-    (hrun : ∀ {ρ : Store V} {o : Outcome V}, AllT ρ → evalBlock S fuel body ρ = some o →
-      ∃ ρ1, o = .normal ρ1 ∧ RunOK ρ ρ1 (assignedBlock body)) :
-    ∀ (fl : Nat) {ρ : Store V} {o : Outcome V}, AllT ρ →
+    (hrun : ∀ {ρ : Store V} {o : Outcome V}, AllT S ρ → evalBlock S fuel body ρ = some o →
+      ∃ ρ1, o = .normal ρ1 ∧ RunOK S ρ ρ1 (assignedBlock body)) :
+    ∀ (fl : Nat) {ρ : Store V} {o : Outcome V}, AllT S ρ →
       iterWhile cond (fun r => evalBlock S fuel body r) fl ρ = some o →
-      ∃ ρ', o = .normal ρ' ∧ AllT ρ' ∧ (∀ x, ρ x ≠ none → ρ' x ≠ none) ∧ (∀ x, x ∉ d → ρ' x = ρ x) := by
+      ∃ ρ', o = .normal ρ' ∧ AllT S ρ' ∧ (∀ x, ρ x ≠ none → ρ' x ≠ none) ∧ (∀ x, x ∉ d → ρ' x = ρ x) := by
   intro fl
   induction fl with
   | zero => intro ρ o _ h; simp [iterWhile] at h
@@ -339,12 +340,12 @@ theorem iterWhile_runG (S : Sem V) (fuel : Nat) {body : List Stmt} {d : VSet} {c
 
 mutual
 theorem nestStmt_run (S : Sem V) (fuel : Nat) : ∀ (st : Stmt) (lo : VSet) {ρ : Store V} {o : Outcome V},
-    nestStmt st lo = true → AllT ρ → evalStmt S fuel st ρ = some o →
-    ∃ ρ', o = .normal ρ' ∧ RunOK ρ ρ' (assignedStmt st)
-  | .assign x e, lo, ρ, o, hi, hρ, h => ifStmt_run S fuel _ (nestStmt_assign hi) hρ h
-  | .par xs es, lo, ρ, o, hi, hρ, h => ifStmt_run S fuel _ (nestStmt_par hi) hρ h
-  | .skip, lo, ρ, o, _, hρ, h => ifStmt_run S fuel .skip (by simp [ifStmt]) hρ h
-  | .ite c t e, lo, ρ, o, hi, hρ, h => by
+    nestStmt st lo = true → TFree S (targetsStmt st) → AllT S ρ → evalStmt S fuel st ρ = some o →
+    ∃ ρ', o = .normal ρ' ∧ RunOK S ρ ρ' (assignedStmt st)
+  | .assign x e, lo, ρ, o, hi, hF, hρ, h => ifStmt_run S fuel _ (nestStmt_assign hi) hF hρ h
+  | .par xs es, lo, ρ, o, hi, hF, hρ, h => ifStmt_run S fuel _ (nestStmt_par hi) hF hρ h
+  | .skip, lo, ρ, o, _, hF, hρ, h => ifStmt_run S fuel .skip (by simp [ifStmt]) hF hρ h
+  | .ite c t e, lo, ρ, o, hi, hF, hρ, h => by
     simp only [nestStmt, Bool.and_eq_true] at hi
     unfold evalStmt at h
     cases hc : evalExpr S ρ c with
@@ -357,7 +358,7 @@ theorem nestStmt_run (S : Sem V) (fuel : Nat) : ∀ (st : Stmt) (lo : VSet) {ρ 
         cases b with
         | true =>
           simp only [ht] at h
-          obtain ⟨ρ', ho, r⟩ := nestBlock_run S fuel t lo hi.1.2 hρ h
+          obtain ⟨ρ', ho, r⟩ := nestBlock_run S fuel t lo hi.1.2 (hF.sub (fun y hy => by simp [targetsStmt, hy])) hρ h
           refine ⟨ρ', ho, r.allT, r.dom, ?_⟩
           intro dd hd y hy
           simp only [assignedStmt] at hd
@@ -372,7 +373,7 @@ theorem nestStmt_run (S : Sem V) (fuel : Nat) : ∀ (st : Stmt) (lo : VSet) {ρ 
               exact r.frame a hta y (fun hm => hy (mem_vunion.mpr (Or.inl hm)))
         | false =>
           simp only [ht] at h
-          obtain ⟨ρ', ho, r⟩ := nestBlock_run S fuel e lo hi.2 hρ h
+          obtain ⟨ρ', ho, r⟩ := nestBlock_run S fuel e lo hi.2 (hF.sub (fun y hy => by simp [targetsStmt, hy])) hρ h
           refine ⟨ρ', ho, r.allT, r.dom, ?_⟩
           intro dd hd y hy
           simp only [assignedStmt] at hd
@@ -385,7 +386,7 @@ theorem nestStmt_run (S : Sem V) (fuel : Nat) : ∀ (st : Stmt) (lo : VSet) {ρ 
               simp only [hta, hea] at hd
               cases hd
               exact r.frame b' hea y (fun hm => hy (mem_vunion.mpr (Or.inr hm)))
-  | .for_ i ok b body, lo, ρ, o, hi, hρ, h => by
+  | .for_ i ok b body, lo, ρ, o, hi, hF, hρ, h => by
     obtain ⟨rfl, _, _, ⟨d, hd, _⟩, _, hbody⟩ := nestStmt_for hi
     unfold evalStmt at h
     simp only [Bool.not_true, Bool.false_eq_true, if_false] at h
@@ -398,47 +399,47 @@ theorem nestStmt_run (S : Sem V) (fuel : Nat) : ∀ (st : Stmt) (lo : VSet) {ρ 
       | some n =>
         simp only [hn] at h
         obtain ⟨ρ', ho, a, dm, fr⟩ := iterFor_runG S fuel i hd
-          (fun hρ0 hb0 => nestBlock_run S fuel body _ hbody hρ0 hb0) n 0 hρ h
+          (fun hρ0 hb0 => nestBlock_run S fuel body _ hbody (hF.sub (fun y hy => by simp [targetsStmt, hy])) hρ0 hb0) n 0 hρ h
         refine ⟨ρ', ho, a, dm, ?_⟩
         intro dd hdd y hy
         simp only [assignedStmt, hd] at hdd
         cases hdd
         exact fr y (fun hm => hy (mem_vunion.mpr (Or.inl hm)))
           (fun he => hy (mem_vunion.mpr (Or.inr (by simp [he]))))
-  | .while_ c body, lo, ρ, o, hi, hρ, h => by
+  | .while_ c body, lo, ρ, o, hi, hF, hρ, h => by
     obtain ⟨t, rfl⟩ := nestStmt_while_var hi
     obtain ⟨⟨d, state, hd, _, _⟩, _, hbody⟩ := nestStmt_while hi
     unfold evalStmt at h
     obtain ⟨ρ', ho, a, dm, fr⟩ := iterWhile_runG S fuel hd
-      (fun hρ0 hb0 => nestBlock_run S fuel body _ hbody hρ0 hb0) fuel hρ h
+      (fun hρ0 hb0 => nestBlock_run S fuel body _ hbody (hF.sub (fun y hy => by simp [targetsStmt, hy])) hρ0 hb0) fuel hρ h
     refine ⟨ρ', ho, a, dm, ?_⟩
     intro dd hdd y hy
     simp only [assignedStmt, hd] at hdd
     cases hdd
     exact fr y hy
-  | .tuple xs e, lo, ρ, o, hi, hρ, h => by
+  | .tuple xs e, lo, ρ, o, hi, hF, hρ, h => by
     obtain ⟨⟨dom, op, sig, args, attrs, rfl⟩, _⟩ := nestStmt_tuple hi
     exact tuple_run S fuel hρ h
-  | .badAssign _ _, _, _, _, hi, _, _ => by simp [nestStmt] at hi
-  | .brk _, _, _, _, hi, _, _ => by simp [nestStmt] at hi
-  | .ret _ _, _, _, _, hi, _, _ => by simp [nestStmt] at hi
-  | .unsupported, _, _, _, hi, _, _ => by simp [nestStmt] at hi
+  | .badAssign _ _, _, _, _, hi, _, _, _ => by simp [nestStmt] at hi
+  | .brk _, _, _, _, hi, _, _, _ => by simp [nestStmt] at hi
+  | .ret _ _, _, _, _, hi, _, _, _ => by simp [nestStmt] at hi
+  | .unsupported, _, _, _, hi, _, _, _ => by simp [nestStmt] at hi
 theorem nestBlock_run (S : Sem V) (fuel : Nat) : ∀ (ss : List Stmt) (lo : VSet) {ρ : Store V} {o : Outcome V},
-    nestBlock ss lo = true → AllT ρ → evalBlock S fuel ss ρ = some o →
-    ∃ ρ', o = .normal ρ' ∧ RunOK ρ ρ' (assignedBlock ss)
-  | [], lo, ρ, o, _, hρ, h => by
+    nestBlock ss lo = true → TFree S (targetsBlock ss) → AllT S ρ → evalBlock S fuel ss ρ = some o →
+    ∃ ρ', o = .normal ρ' ∧ RunOK S ρ ρ' (assignedBlock ss)
+  | [], lo, ρ, o, _, hF, hρ, h => by
     unfold evalBlock at h
     cases h
     exact ⟨ρ, rfl, hρ, fun _ hx => hx, fun _ _ _ _ => rfl⟩
-  | st :: ss, lo, ρ, o, hi, hρ, h => by
+  | st :: ss, lo, ρ, o, hi, hF, hρ, h => by
     simp only [nestBlock, Bool.and_eq_true] at hi
     unfold evalBlock at h
     cases hs : evalStmt S fuel st ρ with
     | none => simp [hs] at h
     | some o1 =>
-      obtain ⟨ρ1, rfl, r1⟩ := nestStmt_run S fuel st _ hi.1 hρ hs
+      obtain ⟨ρ1, rfl, r1⟩ := nestStmt_run S fuel st _ hi.1 hF.head.1 hρ hs
       simp only [hs] at h
-      obtain ⟨ρ2, ho, r2⟩ := nestBlock_run S fuel ss lo hi.2 r1.allT h
+      obtain ⟨ρ2, ho, r2⟩ := nestBlock_run S fuel ss lo hi.2 hF.head.2 r1.allT h
       refine ⟨ρ2, ho, r2.allT, fun x hx => r2.dom x (r1.dom x hx), ?_⟩
       intro dd hd y hy
       obtain ⟨a, b, ha, hb, rfl⟩ := assignedBlock_cons' hd
@@ -1039,7 +1040,7 @@ theorem branch_run_ev (S : Sem V) (hId : ∀ v, S.op "" "Identity" [some v] [] =
     {lo liveDefs : VSet} {ρ' : Store V} {Lb : Locals} {env1 envT : Env V} {sB sC : St}
     {bn bn2 : List Node} {bo : List Name}
     (hevT : EvFrom S env1 bn envT) (invT : Inv S lo ρ' Lb envT sB) (hld : ∀ x, x ∈ liveDefs → x ∈ lo)
-    (hfreeB : FreeOf Lb liveDefs)
+    (hfreeB : FreeOf S Lb liveDefs)
     (h3 : blockOutputs Lb liveDefs bn [] sB = .ok ((bo, bn2), sC)) :
     ∃ envB rs, EvFrom S env1 (bn ++ bn2) envB ∧ bo.mapM envB = some rs
       ∧ All2 (fun r pv => ρ' pv = some (PV.t r)) rs liveDefs := by
@@ -1049,7 +1050,7 @@ theorem branch_run_ev (S : Sem V) (hId : ∀ v, S.op "" "Identity" [some v] [] =
     cases hq : ρ' pv with
     | none => exact absurd hq (invT.bound pv n hl)
     | some q =>
-      obtain ⟨v, rfl⟩ := invT.allT pv q hq
+      obtain ⟨v, rfl⟩ := invT.allT pv q hq (hfreeB pv hpv).2
       obtain ⟨n', hl', hr⟩ := invT.rel pv _ (restrict_some.mpr ⟨hld pv hpv, hq⟩)
       rw [hl] at hl'
       cases hl'
@@ -1060,13 +1061,14 @@ theorem branch_run_ev (S : Sem V) (hId : ∀ v, S.op "" "Identity" [some v] [] =
 
 /-- `BodyFacts` of a block of the fragment, given its simulation. -/
 theorem bodyFacts_of_nest (S : Sem V) (fuel : Nat) {body : List Stmt} {F : VSet} (hbody : nestBlock body F = true)
+    (hF : TFree S (targetsBlock body))
     (hsim : ∀ {L L' : Locals} {ρ ρ1 : Store V} {env : Env V} {s s' : St} {ns : List Node},
-      FreeOf L (targetsBlock body) →
+      FreeOf S L (targetsBlock body) →
       Inv S (liveInBlock body F) ρ L env s → evalBlock S fuel body ρ = some (.normal ρ1) →
       convStmts L body F s = .ok ((L', ns), s') →
       ∃ env', EvFrom S env ns env' ∧ Inv S F ρ1 L' env' s' ∧ Ext env env' s s' ∧ Mono s s') :
     BodyFacts S fuel body F where
-  run := fun hρ he => nestBlock_run S fuel body F hbody hρ he
+  run := fun hρ he => nestBlock_run S fuel body F hbody hF hρ he
   sim := hsim
   cast := fun hc => nestBlock_cast _ body F hbody hc
   nobrk := nestBlock_nobrk body F hbody
@@ -1082,7 +1084,8 @@ theorem while_stmt_core (S : Sem V) (fuel : Nat) (hConst : ∀ l, ∃ c, constOf
     (hB : BodyFacts S fuel body (loopBodyLo (.while_ (.var t) body) lo))
     (hd : assignedBlock body = some d) (hs : loopState body lo = some state)
     (hside : t ∈ state ∨ t ∉ liveInBlock body (loopBodyLo (.while_ (.var t) body) lo))
-    (hstab : stableStmt (.while_ (.var t) body) lo = true) (hfree : FreeOf L (targetsBlock body))
+    (hstab : stableStmt (.while_ (.var t) body) lo = true) (htl : S.attrLit t = none ∧ t ∉ S.pyVars)
+    (hfree : FreeOf S L (targetsBlock body))
     (hinv : Inv S (liveInStmt (.while_ (.var t) body) lo) ρ L env s)
     (he : evalStmt S fuel (.while_ (.var t) body) ρ = some (.normal ρ'))
     (h : convStmt L (.while_ (.var t) body) lo s = .ok ((L', ns), s')) :
@@ -1091,7 +1094,7 @@ theorem while_stmt_core (S : Sem V) (fuel : Nat) (hConst : ∀ l, ∃ c, constOf
   have hsc := convStmt_scope L _ lo hinv.vis (fun x hx => hx) h
   rw [liveIn_while_eq] at hinv
   unfold evalStmt at he
-  simp only [evalExpr] at he
+  simp only [evalExpr_var_of_none htl.1] at he
   rw [convStmt_while] at h
   unfold convWhileAt at h
   simp only [hs] at h
@@ -1111,40 +1114,41 @@ theorem while_stmt_core (S : Sem V) (fuel : Nat) (hConst : ∀ l, ∃ c, constOf
   try dsimp only at h
   obtain ⟨q1, q2⟩ := pure_ok h
   cases q1; subst q2
-  obtain ⟨G, env', ev, inv', x'⟩ := while_core S fuel hConst hId hB hd hs (whileLiveE_of_stable hB hstab) hside hfree hinv he
+  obtain ⟨G, env', ev, inv', x'⟩ := while_core S fuel hConst hId hB hd hs (whileLiveE_of_stable hB hstab) hside htl.2 hfree hinv he
     h2 h1 h3 h4 h5 hfr.1 (hsc.2.mono (fun y hy => after_in_used hfr hy))
   exact ⟨G, env', ev, inv', x', hfr.1⟩
 
 mutual
 theorem nestStmt_sim (S : Sem V) (fuel : Nat) (hConst : ∀ l, ∃ c, constOf S l = some c)
-    (hId : ∀ v, S.op "" "Identity" [some v] [] = some [v]) (hT : S.truth (S.ofBool true) = some true)
+    (hId : ∀ v, S.op "" "Identity" [some v] [] = some [v])
+    (hTL : ∀ l c b, constOf S l = some c → truthPV S (.py l) = some b → S.truth c = some b) (hT : S.truth (S.ofBool true) = some true)
     (hNat : ∀ k c, constOf S (.int k) = some c → S.natOf c = some k.toNat) :
     ∀ (st : Stmt) (lo : VSet) {ρ ρ' : Store V} {L L' : Locals} {env : Env V} {s s' : St} {ns : List Node},
-    nestStmt st lo = true → FreeOf L (targetsStmt st) → Inv S (liveInStmt st lo) ρ L env s →
+    nestStmt st lo = true → FreeOf S L (targetsStmt st) → Inv S (liveInStmt st lo) ρ L env s →
     evalStmt S fuel st ρ = some (.normal ρ') → convStmt L st lo s = .ok ((L', ns), s') →
     ∃ env', EvFrom S env ns env' ∧ Inv S lo ρ' L' env' s' ∧ Ext env env' s s' ∧ Mono s s'
   | .assign x e, lo, ρ, ρ', L, L', env, s, s', ns, hi, hfree, hinv, he, h => by
-    obtain ⟨env', ev, inv, x', m⟩ := stmt_step S fuel hConst hId _ lo (nestStmt_assign hi) hfree hinv he h
+    obtain ⟨env', ev, inv, x', m⟩ := stmt_step S fuel hConst hId hTL _ lo (nestStmt_assign hi) hfree hinv he h
     exact ⟨env', EvFrom.of_eval ev, inv, x', m⟩
   | .par xs es, lo, ρ, ρ', L, L', env, s, s', ns, hi, hfree, hinv, he, h => by
-    obtain ⟨env', ev, inv, x', m⟩ := stmt_step S fuel hConst hId _ lo (nestStmt_par hi) hfree hinv he h
+    obtain ⟨env', ev, inv, x', m⟩ := stmt_step S fuel hConst hId hTL _ lo (nestStmt_par hi) hfree hinv he h
     exact ⟨env', EvFrom.of_eval ev, inv, x', m⟩
   | .skip, lo, ρ, ρ', L, L', env, s, s', ns, hi, hfree, hinv, he, h => by
-    obtain ⟨env', ev, inv, x', m⟩ := stmt_step S fuel hConst hId .skip lo (by simp [ifStmt]) hfree hinv he h
+    obtain ⟨env', ev, inv, x', m⟩ := stmt_step S fuel hConst hId hTL .skip lo (by simp [ifStmt]) hfree hinv he h
     exact ⟨env', EvFrom.of_eval ev, inv, x', m⟩
   | .ite c t e, lo, ρ, ρ', L, L', env, s, s', ns, hi0, hfree, hinv, he, h => by
     have hfr := convStmt_fresh L _ lo h
     have hsc := convStmt_scope L _ lo hinv.vis (fun x hx => hx) h
     have hcast := nestStmt_cast L _ lo hi0 h
     have hi := hi0
+    have hTF : TFree S (targetsStmt (.ite c t e)) := TFree.of_free hinv.noattr hfree
     simp only [nestStmt, Bool.and_eq_true] at hi
     unfold evalStmt at he
     cases hc : evalExpr S ρ c with
     | none => simp [hc] at he
     | some cv =>
-      obtain ⟨cvv, rfl⟩ := tensorRhs_result hinv.allT hi.1.1 hc
-      simp only [hc, truthPV] at he
-      cases hb : S.truth cvv with
+      simp only [hc] at he
+      cases hb : truthPV S cv with
       | none => simp [hb] at he
       | some b =>
         simp only [hb] at he
@@ -1190,18 +1194,27 @@ theorem nestStmt_sim (S : Sem V) (fuel : Nat) (hConst : ∀ l, ∃ c, constOf S 
                     cases ha
                     exact ⟨ta, ea, rfl, rfl, rfl⟩
               have hld : ∀ x, x ∈ vinter lo defs → x ∈ lo := fun x hx => (mem_vinter.mp hx).1
-              have hfreeT : FreeOf ([] :: L) (targetsBlock t) :=
+              have hfreeT : FreeOf S ([] :: L) (targetsBlock t) :=
                 (hfree.sub (fun x hx => by simp [targetsStmt, hx])).mono (AttrMono.push L)
-              have hfreeE : FreeOf ([] :: L) (targetsBlock e) :=
+              have hfreeE : FreeOf S ([] :: L) (targetsBlock e) :=
                 (hfree.sub (fun x hx => by simp [targetsStmt, hx])).mono (AttrMono.push L)
-              have hfreeD : FreeOf ([] :: L) (vinter lo defs) :=
+              have hfreeD : FreeOf S ([] :: L) (vinter lo defs) :=
                 (hfree.sub (fun x hx => assigned_sub_targets _ ha x (mem_vinter.mp hx).2)).mono (AttrMono.push L)
+              have hTD : ∀ x, x ∈ vinter lo defs → S.attrLit x = none := fun x hx =>
+                (hTF x (assigned_sub_targets _ ha x (mem_vinter.mp hx).2)).1
               have hLv : ∀ y, y ∈ usedVars c → y ∈ liveInStmt (.ite c t e) lo := by
                 intro y hy; unfold liveInStmt; exact mem_vunion.mpr (Or.inr hy)
-              have hc' : evalExpr S (restrict ρ (liveInStmt (.ite c t e) lo)) c = some (.t cvv) := by
+              have hc' : evalExpr S (restrict ρ (liveInStmt (.ite c t e) lo)) c = some cv := by
                 rw [evalExpr_restrict S ρ _ c hLv]; exact hc
               obtain ⟨env1, ev1, r1, x1, c1⟩ :=
                 convExpr_sim S fuel hConst _ L hinv.noattr c _ hinv.vis hinv.rel hinv.cast hc' h1
+              -- the condition: a tensor, or the constant of a Python value (an attribute parameter `if flag:`)
+              obtain ⟨cvv, htest, hbt⟩ : ∃ cvv, env1 test = some cvv ∧ S.truth cvv = some b := by
+                cases cv with
+                | t v => exact ⟨v, r1.1, hb⟩
+                | py l =>
+                  obtain ⟨⟨cc, hcc, hev⟩, _⟩ := r1
+                  exact ⟨cc, hev, hTL l cc b hcc hb⟩
               have k1 := convExpr_cast L c _ h1
               have hinv1 : Inv S (liveInStmt (.ite c t e) lo) ρ L env1 s1 := hinv.ext x1 k1.mono c1
               have k2 := nestBlock_cast _ t lo hi.1.2 h2
@@ -1212,7 +1225,7 @@ theorem nestStmt_sim (S : Sem V) (fuel : Nat) (hConst : ∀ l, ∃ c, constOf S 
               obtain ⟨m6, f6, l6⟩ := genUniques_fresh _ h6
               have hc6 := genUniques_castable _ h6
               have hnotin : ∀ n, n ∈ s.used → n ∉ renamed := fun n hn hm => (f6.2 n hm).1 (k15.mono n hn)
-              have finish : ∀ (rs : List V) (aset : VSet), (∀ x, x ∈ aset → x ∈ defs) → RunOK ρ ρ' (some aset) →
+              have finish : ∀ (rs : List V) (aset : VSet), (∀ x, x ∈ aset → x ∈ defs) → RunOK S ρ ρ' (some aset) →
                   All2 (fun r pv => ρ' pv = some (PV.t r)) rs (vinter lo defs) →
                   EvFrom S env1 [Node.ifN test renamed (tn ++ tn2) to (en ++ en2) eo]
                     (env1.setMany renamed rs) →
@@ -1224,7 +1237,7 @@ theorem nestStmt_sim (S : Sem V) (fuel : Nat) (hConst : ∀ l, ∃ c, constOf S 
                   ⟨fun n hn => by rw [envSetMany_frame renamed rs env1 n (hnotin n hn)]; exact x1.envSame n hn,
                    hcast.ext⟩
                 refine ⟨_, EvFrom.seq (EvFrom.of_eval ev1) evNode, ?_, xfin, hfr.1⟩
-                refine ⟨hsc.2.mono (fun y hy => after_in_used hfr hy), hinv.noattr.bindVals _ _,
+                refine ⟨hsc.2.mono (fun y hy => after_in_used hfr hy), hinv.noattr.bindVals _ _ hTD,
                   hcast.sub hinv.cast, run.allT, ?_, ?_⟩
                 · intro y q hy
                   obtain ⟨hm, hq⟩ := restrict_some.mp hy
@@ -1253,21 +1266,21 @@ theorem nestStmt_sim (S : Sem V) (fuel : Nat) (hConst : ∀ l, ∃ c, constOf S 
               cases b with
               | true =>
                 simp only at he
-                obtain ⟨ρt, hρt, runT⟩ := nestBlock_run S fuel t lo hi.1.2 hinv.allT he
+                obtain ⟨ρt, hρt, runT⟩ := nestBlock_run S fuel t lo hi.1.2 (hTF.sub (fun y hy => by simp [targetsStmt, hy])) hinv.allT he
                 cases hρt
                 have hinvT : Inv S (liveInBlock t lo) ρ L env1 s1 := hinv1.mono (by
                   intro y hy; unfold liveInStmt
                   exact mem_vunion.mpr (Or.inl (mem_vunion.mpr (Or.inl hy))))
                 obtain ⟨envT, hevT, invT, _, _⟩ :=
-                  nestBlock_sim S fuel hConst hId hT hNat t lo hi.1.2 hfreeT hinvT.push he h2
+                  nestBlock_sim S fuel hConst hId hTL hT hNat t lo hi.1.2 hfreeT hinvT.push he h2
                 obtain ⟨envB, rs, ⟨GB, evB⟩, hrs, hall⟩ := branch_run_ev S hId hevT invT hld (hfreeD.mono (convStmts_attrMono _ _ _ h2)) h3
                 have hlen : rs.length = renamed.length := by rw [all2_len hall, l6]
                 refine finish rs ta (fun x hx => by rw [hdefs]; exact mem_vunion.mpr (Or.inl hx))
                   (by rw [← hta]; exact runT) hall ⟨GB, fun G hG => ?_⟩
-                simp [evalNodes, evalNode, r1.1, hb, evB G hG, Env.getMany, hrs, hlen]
+                simp [evalNodes, evalNode, htest, hbt, evB G hG, Env.getMany, hrs, hlen]
               | false =>
                 simp only at he
-                obtain ⟨ρt, hρt, runE⟩ := nestBlock_run S fuel e lo hi.2 hinv.allT he
+                obtain ⟨ρt, hρt, runE⟩ := nestBlock_run S fuel e lo hi.2 (hTF.sub (fun y hy => by simp [targetsStmt, hy])) hinv.allT he
                 cases hρt
                 have k13 : CastOK s1 s3 := k2.trans k3
                 have hinv3 : Inv S (liveInStmt (.ite c t e) lo) ρ L env1 s3 :=
@@ -1276,41 +1289,46 @@ theorem nestStmt_sim (S : Sem V) (fuel : Nat) (hConst : ∀ l, ∃ c, constOf S 
                   intro y hy; unfold liveInStmt
                   exact mem_vunion.mpr (Or.inl (mem_vunion.mpr (Or.inr hy))))
                 obtain ⟨envT, hevT, invT, _, _⟩ :=
-                  nestBlock_sim S fuel hConst hId hT hNat e lo hi.2 hfreeE hinvE.push he h4
+                  nestBlock_sim S fuel hConst hId hTL hT hNat e lo hi.2 hfreeE hinvE.push he h4
                 obtain ⟨envB, rs, ⟨GB, evB⟩, hrs, hall⟩ := branch_run_ev S hId hevT invT hld (hfreeD.mono (convStmts_attrMono _ _ _ h4)) h5
                 have hlen : rs.length = renamed.length := by rw [all2_len hall, l6]
                 refine finish rs ea (fun x hx => by rw [hdefs]; exact mem_vunion.mpr (Or.inr hx))
                   (by rw [← hea]; exact runE) hall ⟨GB, fun G hG => ?_⟩
-                simp [evalNodes, evalNode, r1.1, hb, evB G hG, Env.getMany, hrs, hlen]
+                simp [evalNodes, evalNode, htest, hbt, evB G hG, Env.getMany, hrs, hlen]
   | .for_ i ok b body, lo, ρ, ρ', L, L', env, s, s', ns, hi, hfree, hinv, he, h => by
     obtain ⟨rfl, _, _, ⟨d, hd, hid⟩, hst, hbody⟩ := nestStmt_for hi
-    have hB := bodyFacts_of_nest S fuel hbody
-      (fun hf' hinv' he' hc' => nestBlock_sim S fuel hConst hId hT hNat body _ hbody hf' hinv' he' hc')
+    have hTF : TFree S (targetsStmt (.for_ i true b body)) := TFree.of_free hinv.noattr hfree
+    have hB := bodyFacts_of_nest S fuel hbody (hTF.sub (fun y hy => by simp [targetsStmt, hy]))
+      (fun hf' hinv' he' hc' => nestBlock_sim S fuel hConst hId hTL hT hNat body _ hbody hf' hinv' he' hc')
     obtain ⟨G, env', ev, inv', x', m'⟩ :=
-      for_step S fuel hConst hId hT hNat hB hd hid (hfree.sub (fun x hx => by simp [targetsStmt, hx]))
+      for_step S fuel hConst hId hT hNat hB hd hid (hTF i (by simp [targetsStmt]))
+        (hfree.sub (fun x hx => by simp [targetsStmt, hx]))
         (forLiveE_of_stable hB hst) hinv he h
     exact ⟨env', EvFrom.of_eval ev, inv', x', m'⟩
   | .while_ c body, lo, ρ, ρ', L, L', env, s, s', ns, hi, hfree, hinv, he, h => by
     obtain ⟨t, rfl⟩ := nestStmt_while_var hi
     obtain ⟨⟨d, state, hd, hs, hside⟩, hst, hbody⟩ := nestStmt_while hi
-    have hB := bodyFacts_of_nest S fuel hbody
-      (fun hf' hinv' he' hc' => nestBlock_sim S fuel hConst hId hT hNat body _ hbody hf' hinv' he' hc')
+    have hTF : TFree S (targetsStmt (.while_ (.var t) body)) := TFree.of_free hinv.noattr hfree
+    have hB := bodyFacts_of_nest S fuel hbody (hTF.sub (fun y hy => by simp [targetsStmt, hy]))
+      (fun hf' hinv' he' hc' => nestBlock_sim S fuel hConst hId hTL hT hNat body _ hbody hf' hinv' he' hc')
     obtain ⟨G, env', ev, inv', x', m'⟩ := while_stmt_core S fuel hConst hId hB hd hs hside hst
-      (hfree.sub (fun x hx => by simpa [targetsStmt] using hx)) hinv he h
+      (hTF t (by simp [targetsStmt, bareVar]))
+      (hfree.sub (fun x hx => by simp [targetsStmt, hx])) hinv he h
     exact ⟨env', EvFrom.of_eval ev, inv', x', m'⟩
-  | .tuple xs e, lo, ρ, ρ', L, L', env, s, s', ns, hi, _, hinv, he, h => by
+  | .tuple xs e, lo, ρ, ρ', L, L', env, s, s', ns, hi, hfree, hinv, he, h => by
     obtain ⟨⟨dom, op, sig, args, attrs, rfl⟩, hnd⟩ := nestStmt_tuple hi
-    obtain ⟨env', ev, inv, x', m⟩ := tuple_step S fuel hConst hnd hinv he h
+    obtain ⟨env', ev, inv, x', m⟩ := tuple_step S fuel hConst hnd (fun x hx => (TFree.of_free hinv.noattr hfree x (by simp [targetsStmt, hx])).1) hinv he h
     exact ⟨env', EvFrom.of_eval ev, inv, x', m⟩
   | .badAssign _ _, _, _, _, _, _, _, _, _, _, hi, _, _, _, _ => by simp [nestStmt] at hi
   | .brk _, _, _, _, _, _, _, _, _, _, hi, _, _, _, _ => by simp [nestStmt] at hi
   | .ret _ _, _, _, _, _, _, _, _, _, _, hi, _, _, _, _ => by simp [nestStmt] at hi
   | .unsupported, _, _, _, _, _, _, _, _, _, hi, _, _, _, _ => by simp [nestStmt] at hi
 theorem nestBlock_sim (S : Sem V) (fuel : Nat) (hConst : ∀ l, ∃ c, constOf S l = some c)
-    (hId : ∀ v, S.op "" "Identity" [some v] [] = some [v]) (hT : S.truth (S.ofBool true) = some true)
+    (hId : ∀ v, S.op "" "Identity" [some v] [] = some [v])
+    (hTL : ∀ l c b, constOf S l = some c → truthPV S (.py l) = some b → S.truth c = some b) (hT : S.truth (S.ofBool true) = some true)
     (hNat : ∀ k c, constOf S (.int k) = some c → S.natOf c = some k.toNat) :
     ∀ (ss : List Stmt) (lo : VSet) {ρ ρ' : Store V} {L L' : Locals} {env : Env V} {s s' : St} {ns : List Node},
-    nestBlock ss lo = true → FreeOf L (targetsBlock ss) → Inv S (liveInBlock ss lo) ρ L env s →
+    nestBlock ss lo = true → FreeOf S L (targetsBlock ss) → Inv S (liveInBlock ss lo) ρ L env s →
     evalBlock S fuel ss ρ = some (.normal ρ') → convStmts L ss lo s = .ok ((L', ns), s') →
     ∃ env', EvFrom S env ns env' ∧ Inv S lo ρ' L' env' s' ∧ Ext env env' s s' ∧ Mono s s'
   | [], lo, ρ, ρ', L, L', env, s, s', ns, _, _, hinv, he, h => by
@@ -1328,7 +1346,7 @@ theorem nestBlock_sim (S : Sem V) (fuel : Nat) (hConst : ∀ l, ∃ c, constOf S
     cases hs : evalStmt S fuel st ρ with
     | none => simp [hs] at he
     | some o1 =>
-      obtain ⟨ρ1, rfl, _⟩ := nestStmt_run S fuel st _ hi.1 hinv.allT hs
+      obtain ⟨ρ1, rfl, _⟩ := nestStmt_run S fuel st _ hi.1 (TFree.of_free hinv.noattr hfree.head.1) hinv.allT hs
       simp only [hs] at he
       unfold convStmts at h
       mbind h with p s1 h1
@@ -1339,8 +1357,8 @@ theorem nestBlock_sim (S : Sem V) (fuel : Nat) (hConst : ∀ l, ∃ c, constOf S
       try dsimp only at h
       obtain ⟨q1, q2⟩ := pure_ok h
       cases q1; subst q2
-      obtain ⟨env1, ev1, inv1, x1, m1⟩ := nestStmt_sim S fuel hConst hId hT hNat st _ hi.1 hfree.head.1 hinv hs h1
-      obtain ⟨env2, ev2, inv2, x2, m2⟩ := nestBlock_sim S fuel hConst hId hT hNat ss lo hi.2
+      obtain ⟨env1, ev1, inv1, x1, m1⟩ := nestStmt_sim S fuel hConst hId hTL hT hNat st _ hi.1 hfree.head.1 hinv hs h1
+      obtain ⟨env2, ev2, inv2, x2, m2⟩ := nestBlock_sim S fuel hConst hId hTL hT hNat ss lo hi.2
         (hfree.head.2.mono (convStmt_attrMono L st _ h1)) inv1 he h2
       exact ⟨env2, EvFrom.seq ev1 ev2, inv2, x1.trans m1 x2, m1.trans m2⟩
 end
@@ -1349,7 +1367,8 @@ end
 
 theorem nestLine_cons {st : Stmt} {ss : List Stmt} (h : nestLine (st :: ss) = true) :
     (∃ es, st = .ret es false ∧ ss = []) ∨
-      ((nestStmt st (liveInBlock ss []) = true ∨ forTopStmt st (liveInBlock ss []) = true) ∧ nestLine ss = true) := by
+      (((litAssign st = true ∨ nestStmt st (liveInBlock ss []) = true) ∨ forTopStmt st (liveInBlock ss []) = true)
+        ∧ nestLine ss = true) := by
   unfold nestLine at h
   cases st with
   | ret es bare =>
@@ -1358,11 +1377,65 @@ theorem nestLine_cons {st : Stmt} {ss : List Stmt} (h : nestLine (st :: ss) = tr
       simp only [Bool.not_eq_true'] at h
       subst h
       exact Or.inl ⟨es, rfl, rfl⟩
-    | cons s2 ss2 => simp [forTopStmt, ifStmt, nestStmt] at h
+    | cons s2 ss2 => simp [forTopStmt, ifStmt, nestStmt, litAssign] at h
   | _ => right; simpa using h
 
+/-- A top-level assignment to one of the Python-scalar variables (`x = 2.0`): the invariant does not ask `x` to
+hold a tensor, the straight-line relation carries the castable constant. -/
+theorem pyAssign_step (S : Sem V) (fuel : Nat) (hConst : ∀ l, ∃ c, constOf S l = some c) {x : Name} {e : Expr}
+    {lo : VSet} {ρ ρ' : Store V} {L L' : Locals} {env : Env V} {s s' : St} {ns : List Node}
+    (hx : S.attrLit x = none) (hxP : x ∈ S.pyVars)
+    (hinv : Inv S (liveInStmt (.assign x e) lo) ρ L env s)
+    (he : evalStmt S fuel (.assign x e) ρ = some (.normal ρ'))
+    (h : convStmt L (.assign x e) lo s = .ok ((L', ns), s')) :
+    ∃ env', evalNodes S fuel env ns = some env' ∧ Inv S lo ρ' L' env' s' ∧ Ext env env' s s' ∧ Mono s s' := by
+  unfold evalStmt at he
+  cases hee : evalExpr S ρ e with
+  | none => simp [hee] at he
+  | some pv =>
+    simp only [hee] at he
+    cases he
+    have hsub : ∀ y, y ∈ usedVars e → y ∈ liveInStmt (.assign x e) lo := by
+      intro y hy; unfold liveInStmt; exact mem_vunion.mpr (Or.inr hy)
+    have hee' : evalExpr S (restrict ρ (liveInStmt (.assign x e) lo)) e = some pv := by
+      rw [evalExpr_restrict S ρ _ e hsub]; exact hee
+    obtain ⟨env1, ev1, hR1, x1, c1, hL1, hA1, m1⟩ :=
+      assign_sim S fuel hConst hinv.noattr hinv.vis hinv.rel hinv.cast hx hee' h
+    refine ⟨env1, ev1, ⟨hL1, hA1, c1, ?_, ?_, ?_⟩, x1, m1⟩
+    · intro y q hy hyP
+      unfold Store.set at hy
+      by_cases hyx : y = x
+      · exact absurd (hyx ▸ hxP) hyP
+      · simp only [hyx, if_false] at hy
+        exact hinv.allT y q hy hyP
+    · apply hR1.of_le
+      intro y q hy
+      obtain ⟨hm, hq⟩ := restrict_some.mp hy
+      unfold Store.set at hq ⊢
+      by_cases hyx : y = x
+      · simpa [hyx] using hq
+      · simp only [hyx, if_false] at hq ⊢
+        apply restrict_some.mpr
+        refine ⟨?_, hq⟩
+        unfold liveInStmt
+        exact mem_vunion.mpr (Or.inl (mem_vdiff.mpr ⟨hm, by simpa using hyx⟩))
+    · intro y n hl
+      unfold convStmt at h
+      mbind h with p s1 h1
+      obtain ⟨t, ns1⟩ := p
+      try dsimp only at h
+      obtain ⟨q1, q2⟩ := pure_ok h
+      cases q1
+      unfold Store.set
+      by_cases hyx : y = x
+      · simp [hyx]
+      · simp only [hyx, if_false]
+        rw [lookup_bindVar_ne hyx] at hl
+        exact hinv.bound y n hl
+
 theorem convTop_nest_sim (S : Sem V) (fuel : Nat) (hConst : ∀ l, ∃ c, constOf S l = some c)
-    (hId : ∀ v, S.op "" "Identity" [some v] [] = some [v]) (hT : S.truth (S.ofBool true) = some true)
+    (hId : ∀ v, S.op "" "Identity" [some v] [] = some [v])
+    (hTL : ∀ l c b, constOf S l = some c → truthPV S (.py l) = some b → S.truth c = some b) (hT : S.truth (S.ofBool true) = some true)
     (hNat : ∀ k c, constOf S (.int k) = some c → S.natOf c = some k.toNat)
     (hNot : ∀ v bk, S.truth v = some bk → ∃ w, S.op "" "Not" [some v] [] = some [w] ∧ S.truth w = some (!bk))
     (hAnd : ∀ x y yb, S.truth y = some yb → ∃ w, S.op "" "And" [some x, some y] [] = some [w] ∧
@@ -1370,7 +1443,9 @@ theorem convTop_nest_sim (S : Sem V) (fuel : Nat) (hConst : ∀ l, ∃ c, constO
     {inputs : List Name} {rc : Option Nat} :
     ∀ (body : List Stmt) (L : Locals) {ρ : Store V} {env : Env V} {s s' : St} {ns : List Node}
       {outs : List Name} {pvs : List (PV V)} {vs : List V},
-      nestLine body = true → FreeOf L (targetsBlock body) → Inv S (liveInBlock body []) ρ L env s →
+      nestLine body = true → FreeOf S L (targetsTop body) →
+      (∀ x, x ∈ litTargets body → S.attrLit x = none ∧ x ∈ S.pyVars) →
+      Inv S (liveInBlock body []) ρ L env s →
       evalBlock S fuel body ρ = some (.returned pvs) → pvs.mapM (toTensor S) = some vs →
       convTop inputs rc L body [] s = .ok ((ns, outs), s') →
       ∃ G env', evalNodes S G env ns = some env' ∧ outs.mapM env' = some vs := by
@@ -1378,10 +1453,10 @@ theorem convTop_nest_sim (S : Sem V) (fuel : Nat) (hConst : ∀ l, ∃ c, constO
   induction body with
   | nil => intro L ρ env s s' ns outs pvs vs hi; simp [nestLine] at hi
   | cons st ss ih =>
-    intro L ρ env s s' ns outs pvs vs hi hfree hinv he hv h
+    intro L ρ env s s' ns outs pvs vs hi hfree hLT hinv he hv h
     rcases nestLine_cons hi with ⟨es, rfl, rfl⟩ | ⟨hst, hss⟩
-    · obtain ⟨env', ev, hm⟩ := convTop_if_sim S fuel hConst hId [.ret es false] L (by simp [ifLine])
-        hfree hinv he hv h
+    · obtain ⟨env', ev, hm⟩ := convTop_if_sim S fuel hConst hId hTL [.ret es false] L (by simp [ifLine])
+        (fun x hx => by simp [targetsBlock, targetsStmt] at hx) hinv he hv h
       exact ⟨fuel, env', ev, hm⟩
     · unfold liveInBlock at hinv
       unfold evalBlock at he
@@ -1391,7 +1466,8 @@ theorem convTop_nest_sim (S : Sem V) (fuel : Nat) (hConst : ∀ l, ∃ c, constO
         have hnr : ∀ es b, st ≠ .ret es b := by
           intro es b hc
           subst hc
-          rcases hst with h' | h'
+          rcases hst with (h' | h') | h'
+          · simp [litAssign] at h'
           · simp [nestStmt] at h'
           · simp [forTopStmt, ifStmt] at h'
         rw [convTop_cons_nonret inputs rc L st ss [] hnr] at h
@@ -1403,33 +1479,63 @@ theorem convTop_nest_sim (S : Sem V) (fuel : Nat) (hConst : ∀ l, ∃ c, constO
         try dsimp only at h
         obtain ⟨q1, q2⟩ := pure_ok h
         cases q1
+        have hfreeR : FreeOf S L (targetsTop ss) := hfree.sub (fun x hx => by simp [targetsTop, hx])
+        have hLTR : ∀ x, x ∈ litTargets ss → S.attrLit x = none ∧ x ∈ S.pyVars := by
+          intro x hx
+          apply hLT x
+          cases st with
+          | assign y e => unfold litTargets; split <;> simp [hx]
+          | _ => simpa [litTargets] using hx
         have hstep : ∃ ρ1, o1 = .normal ρ1 ∧ ∃ G env', evalNodes S G env ns1 = some env' ∧
             Inv S (liveInBlock ss []) ρ1 L1 env' s1 := by
-          rcases hst with h' | h'
-          · obtain ⟨ρ1, rfl, _⟩ := nestStmt_run S fuel st _ h' hinv.allT hs
-            obtain ⟨env', ⟨G, ev⟩, inv', _, _⟩ := nestStmt_sim S fuel hConst hId hT hNat st _ h' hfree.head.1 hinv hs h1
-            exact ⟨ρ1, rfl, G, env', ev G (Nat.le_refl _), inv'⟩
-          · exact top_step S fuel hConst hId hT hNat hNot hAnd st _ h' hfree.head.1 hinv hs h1
+          cases hlit : litAssign st with
+          | true =>
+            cases st with
+            | assign y e =>
+              simp only [litAssign, Bool.not_eq_true'] at hlit
+              have hy := hLT y (by simp [litTargets, hlit])
+              have hn : ∃ ρ1, o1 = .normal ρ1 := by
+                unfold evalStmt at hs
+                cases hee : evalExpr S ρ e with
+                | none => simp [hee] at hs
+                | some pv => simp only [hee] at hs; cases hs; exact ⟨_, rfl⟩
+              obtain ⟨ρ1, rfl⟩ := hn
+              obtain ⟨env', ev, inv', _, _⟩ := pyAssign_step S fuel hConst hy.1 hy.2 hinv hs h1
+              exact ⟨ρ1, rfl, fuel, env', ev, inv'⟩
+            | _ => simp [litAssign] at hlit
+          | false =>
+            have hfreeS : FreeOf S L (targetsStmt st) := hfree.sub (fun x hx => by simp [targetsTop, hlit, hx])
+            rcases hst with (h' | h') | h'
+            · rw [hlit] at h'; cases h'
+            · obtain ⟨ρ1, rfl, _⟩ := nestStmt_run S fuel st _ h' (TFree.of_free hinv.noattr hfreeS) hinv.allT hs
+              obtain ⟨env', ⟨G, ev⟩, inv', _, _⟩ := nestStmt_sim S fuel hConst hId hTL hT hNat st _ h' hfreeS hinv hs h1
+              exact ⟨ρ1, rfl, G, env', ev G (Nat.le_refl _), inv'⟩
+            · exact top_step S fuel hConst hId hTL hT hNat hNot hAnd st _ h' hfreeS hinv hs h1
         obtain ⟨ρ1, rfl, G1, env1, ev1, inv1⟩ := hstep
         simp only [hs] at he
-        obtain ⟨G2, env2, ev2, hm2⟩ := ih L1 hss (hfree.head.2.mono (convStmt_attrMono L st _ h1)) inv1 he hv h2
+        obtain ⟨G2, env2, ev2, hm2⟩ := ih L1 hss (hfreeR.mono (convStmt_attrMono L st _ h1)) hLTR inv1 he hv h2
         exact ⟨max G1 G2, env2,
           evalNodes_seq (evalNodes_mono S ns1 G1 _ _ _ (Nat.le_max_left _ _) ev1)
             (evalNodes_mono S _ G2 _ _ _ (Nat.le_max_right _ _) ev2), hm2⟩
 
 /-- **Refinement for functions with loops nested in loops and branches.** -/
 theorem convert_correct_nest (S : Sem V) (hConst : ∀ l, ∃ c, constOf S l = some c)
-    (hId : ∀ v, S.op "" "Identity" [some v] [] = some [v]) (hT : S.truth (S.ofBool true) = some true)
+    (hId : ∀ v, S.op "" "Identity" [some v] [] = some [v])
+    (hTL : ∀ l c b, constOf S l = some c → truthPV S (.py l) = some b → S.truth c = some b) (hT : S.truth (S.ofBool true) = some true)
     (hNat : ∀ k c, constOf S (.int k) = some c → S.natOf c = some k.toNat)
     (hNot : ∀ v bk, S.truth v = some bk → ∃ w, S.op "" "Not" [some v] [] = some [w] ∧ S.truth w = some (!bk))
     (hAnd : ∀ x y yb, S.truth y = some yb → ∃ w, S.op "" "And" [some x, some y] [] = some [w] ∧
       (yb = false → S.truth w = some false) ∧ (yb = true → S.truth w = S.truth x))
     {f : Func} {g : Graph}
-    (hil : nestLine f.body = true) (hattr : ∀ p, p ∈ attrParams f.params → p ∉ targetsBlock f.body)
+    (hil : nestLine f.body = true) (hattr : ∀ p, p ∈ attrParams f.params → p ∉ targetsTop f.body)
+    (hσ : ∀ x l, S.attrLit x = some l → ∃ ty, Param.attr x ty ∈ f.params ∧ AttrVal S x ty l)
+    (hPy : ∀ x, x ∈ S.pyVars → x ∉ targetsTop f.body)
+    (hLT : ∀ x, x ∈ litTargets f.body → S.attrLit x = none ∧ x ∈ S.pyVars)
     (hnames : (f.params.map Param.name).Nodup) (h : convert f = .ok g)
     {fuel : Nat} {args vs : List V} (he : evalFunc S fuel f args = some vs) :
     ∃ G, evalGraph S G g args = some vs :=
-  convert_correct_via S hattr hnames h he
-    (fun hfree hinv hb he' hc => convTop_nest_sim S fuel hConst hId hT hNat hNot hAnd f.body _ hil hfree hinv hb he' hc)
+  convert_correct_via S hattr hσ hPy hnames h he
+    (fun hfree hinv hb he' hc =>
+      convTop_nest_sim S fuel hConst hId hTL hT hNat hNot hAnd f.body _ hil hfree hLT hinv hb he' hc)
 
 end OV.C01
